@@ -206,6 +206,26 @@ def main(tier, seed, replay=None):
         if nruns % 397 == 1:
             ck.sample(ex)
         check_run(ck, prog, out, ex)
+    if ck.broken and not ck.failures and not replay:
+        # an obligation / correspondence no longer checks: search harder for a concrete failing schedule
+        # (more line-level preemptions, programs with waitall callers and several tasks)
+        found = False
+        for k in range(6000):
+            prog = gen_program(rng)
+            prog["waiters"] = max(prog["waiters"], 1)
+            prog["shutdown_after"] = None
+            if sum(prog["spawners"]) < 2:
+                prog["spawners"] = [2] if prog["backend"] == "main_thread_only" and prog["hasprimary"] else [1, 1]
+            r = random.Random(rng.getrandbits(32))
+            chooser = S.RandomChooser(r, line_p=0.3) if k % 2 else S.PCTChooser(r, depth=5, est_steps=200)
+            out = run_program(prog, chooser, 10)
+            nruns += 1
+            ex = {"prog": prog, "schedule": out["schedule"], "line_budget": 10, "outcome": {k2: out[k2] for k2 in ("result", "accepted", "refused", "runs", "waitres", "primary_exited", "shut", "running_left", "deadlock", "clock")}}
+            ck.case(("search", repr(prog), tuple(out["schedule"])), nontrivial=True)
+            check_run(ck, prog, out, ex)
+            if ck.failures:
+                break
+        ck.count("escalated_search_runs", k + 1)
     ck.cov["traces_validated_against_impl"] = nruns
     ck.cov["programs"] = len({repr(p) for p, _, _, _ in runs})
     try:
